@@ -108,6 +108,10 @@ def _graph_case(draw, ctx):
                         lst[i] = "bus." + pn
         for inst in spec["insts"]:
             inst[2] = {("bus." + k if k in ("d", "q") else k): v for k, v in inst[2].items()}
+    if spec["insts"] and draw(st.integers(0, 5)) == 0:
+        # instance names that contain a dot themselves (hierarchical names of flattened designs)
+        for inst in spec["insts"]:
+            inst[0] = "core." + inst[0]
     names = [x[0] for x in spec["nodes"]]
     pins = []
     for iname, ti, conns in spec["insts"]:
